@@ -17,13 +17,13 @@ import (
 func init() {
 	eng.Register(&eng.Check{
 		ID: "C07",
-		Rule: "E1/E2 differential over selector spellings: every path of 1..3 parts over the part alphabet {a, A, b, 0, 01, a/b, a~b, a.b, 'a b', ' a', e-acute, \"\"} that is expressible in >=2 spellings x EVERY combination of per-part spelling (.ident, .digits, [\"..\"], [`..`], [ \"..\" ] with inner blanks, escape spelling, mixed within one selector; whole-selector JSON pointer with ~0/~1 escapes) x 8 operators x documents (nested string-keyed maps of depth 1..3 with a distinct leaf per path, struct/tag and list variants), also as quantified collection and inside quantifier bodies (alias-relative); oracle: grammar.Parse yields exactly the intended Path for every spelling and Evaluate's outcome is identical across the spellings of one path on every document; distinct leaves make case-/blank-variants select different keys. Distinct by construction; non-trivial = a (path, operator) group with >=2 spellings compared.",
+		Rule: "E1/E2 differential over selector spellings: every path of 1..3 parts over the part alphabet {a, A, b, 0, 01, a/b, a~b, a.b, 'a b', ' a', e-acute, \"\", ~1, ~0, x~01 (keys that themselves contain escape-like text)} that is expressible in >=2 spellings x EVERY combination of per-part spelling (.ident, .digits, [\"..\"], [`..`], [ \"..\" ] with inner blanks, escape spelling, mixed within one selector; whole-selector JSON pointer with ~0/~1 escapes) x 8 operators x documents (nested string-keyed maps of depth 1..3 with a distinct leaf per path, struct/tag and list variants), also as quantified collection and inside quantifier bodies (alias-relative); oracle: grammar.Parse yields exactly the intended Path for every spelling and Evaluate's outcome is identical across the spellings of one path on every document; distinct leaves make case-/blank-variants select different keys. Distinct by construction; non-trivial = a (path, operator) group with >=2 spellings compared.",
 		Assumptions: []string{"outcome classes only", "bounded part alphabet and depth"},
 		Run:         runC07,
 	})
 }
 
-var c07Parts = []string{"a", "A", "b", "0", "01", "a/b", "a~b", "a.b", "a b", " a", "é", ""}
+var c07Parts = []string{"a", "A", "b", "0", "01", "a/b", "a~b", "a.b", "a b", " a", "é", "", "~1", "~0", "x~01"}
 
 func identOK(s string) bool {
 	if s == "" {
@@ -126,7 +126,7 @@ func c07Paths(thorough bool) [][]string {
 			out = append(out, []string{a, b})
 			third := parts
 			if !thorough {
-				third = []string{"a", "0", "a.b", "a~b", ""}
+				third = []string{"a", "0", "a.b", "a~b", "", "~1"}
 			}
 			for _, c := range third {
 				out = append(out, []string{a, b, c})
